@@ -149,6 +149,13 @@ Theorem C15_call_solution_is_a_declared_constraint : forall (V : Type) (O : ops 
 Proof. exact @call_solution_is_a_constraint. Qed.
 Print Assumptions C15_call_solution_is_a_declared_constraint.
 
+Theorem C15_order_independence_refuted_incomparable_uppers :
+  let bs := [UpperBound (SU [A_litNone]); UpperBound (SU [A_lita; A_float; A_lit1]); UpperBound (SU [A_bool]); LowerBound (SU [A_lit1_5])] in
+  let bs' := [UpperBound (SU [A_litNone]); UpperBound (SU [A_bool]); UpperBound (SU [A_lita; A_float; A_lit1]); LowerBound (SU [A_lit1_5])] in
+  Permutation bs bs' /\ is_err (solve atom_ops bs) = true /\ is_err (solve atom_ops bs') = false.
+Proof. split; [apply perm_refuted_incomparable|split; apply perm_refuted_incomparable]. Qed.
+Print Assumptions C15_order_independence_refuted_incomparable_uppers.
+
 (* the hypotheses hold on the simple fragment over the implementation's own
    acceptance table, so every theorem above applies to `atom_ops` outright *)
 Theorem C15_atom_ops_satisfy_laws : acc_laws atom_ops.
